@@ -332,7 +332,14 @@ class Engine(object):
         return sfr
 
     def eval_spec(self, ctx, sfr, text):
-        """Evaluate a spec expression (text or callable) to a z3 Bool."""
+        """Evaluate a spec expression (text or callable) to a z3 Bool.  A spec function that
+        cannot be applied to the values the (changed) code produced is undecided, never a crash."""
+        try:
+            return self._eval_spec(ctx, sfr, text)
+        except (AttributeError, TypeError, KeyError, IndexError) as e:
+            raise Unsupported('spec expression %r cannot be evaluated on this path: %r' % (text, e))
+
+    def _eval_spec(self, ctx, sfr, text):
         if callable(text):
             v = text(self.interp, ctx, sfr)
         else:
@@ -498,6 +505,9 @@ class Engine(object):
         raise Unsupported('getattr with a symbolic attribute name', node)
 
     def opaque_contains(self, ctx, container, x, node):
+        oc = self.opaque.get(container.cls)
+        if oc is not None and '__contains__' in oc.methods and not isinstance(oc.methods['__contains__'], str):
+            return self.interp.truth(ctx, oc.methods['__contains__'](self.interp, ctx, container, x))
         f = Z.func('obj_contains', Z.Obj, Z.Obj, Z.Bool)
         return f(container.z, box(x, ctx))
 
@@ -521,6 +531,9 @@ class Engine(object):
         return VObj(Z.fresh('slice', Z.Obj))
 
     def opaque_setitem(self, ctx, v, idx, val, node):
+        oc = self.opaque.get(v.cls)
+        if oc is not None and '__setitem__' in oc.methods and not isinstance(oc.methods['__setitem__'], str):
+            return oc.methods['__setitem__'](self.interp, ctx, v, idx, val)
         ctx.writes.append((v.z, '[]', getattr(node, 'lineno', None)))
 
     def opaque_int(self, ctx, v, node):
